@@ -250,7 +250,7 @@ recurseTail:
 
 	case builtin:
 		err := o(intp)
-		if e2, ok := err.(*postScriptError); ok {
+		if e2, ok := err.(*postScriptError); ok && e2 != ErrExecutionLimitExceeded {
 			level := len(intp.errors)
 			if level < 5 {
 				intp.errors = append(intp.errors, e2)
